@@ -33,6 +33,9 @@ def cells(tier):
                 da = [[cancel(rid("A", 0))]] if "ccb" in cbn else []
                 sc = scen(pool(size), [[A("A", 2)], [M("M", 2, 1)]] + da + [[fa]], outcomes=["ret"], **cb)
                 out.append(cell(f"s{size} A2|M2/1 {cbn} {fin}", sc, MON))
+        # a failing worker while another task sits in a slow (async) cancel callback, then flush
+        sc = scen(pool(size + 1), [[A("A", 3)], [cancel(rid("A", 0))], [FLUSH]], outcomes=["ret", "exc"], ecb="plain", ccb="slow", slow_ids=[0])
+        out.append(cell(f"s{size + 1} A3 cancel0 flush slowccb0 ret/exc", sc, MON))
         # raising call sites
         sc = scen(pool(size), [[A("A", 3, fault=[1])], [M("M", 3, 2, bad=[0, 2])], [GAC]], outcomes=["ret", "exc"])
         out.append(cell(f"s{size} A3 fault[1]|M3/2 bad[0,2] gac", sc, MON))
